@@ -100,7 +100,17 @@ deriving Repr, DecidableEq
 
 /-! ## canonical JSON rendering -/
 
-def q (s : Str) : Str := 34 :: s ++ [34]                    -- "s"  (s is plain: no escapes needed)
+/-- JSON string escaping as `encoding/json` does it, HTML escaping aside (the harness re-encodes what
+the service published without it): `"`, `\\` and the control characters are escaped; every other byte is
+copied (the harness only uses valid UTF-8) -/
+def hexd (n : Nat) : Nat := if n < 10 then 48 + n else 87 + n
+def escByte (c : Nat) : Str :=
+  if c = 34 then [92, 34] else if c = 92 then [92, 92]
+  else if c = 10 then [92, 110] else if c = 13 then [92, 114] else if c = 9 then [92, 116]
+  else if c < 32 then [92, 117, 48, 48, hexd (c / 16), hexd (c % 16)]
+  else [c]
+def esc (s : Str) : Str := s.flatMap escByte
+def q (s : Str) : Str := 34 :: esc s ++ [34]                -- "s" as encoding/json writes it
 def replySubj : Str := b!"REPLY"
 
 
